@@ -698,6 +698,8 @@ class ATR_REQ(ATR_REQ_RES):
     @staticmethod
     def decode(data):
         if data.startswith(ATR_REQ.PDU_CODE):
+            if len(data) < 16:
+                raise nfc.clf.ProtocolError("invalid format of the ATR-REQ")
             nfcid3, (did, bs, br, pp) = data[2:12], data[12:16]
             gb = data[16:] if pp & 0x02 else bytearray()
             return ATR_REQ(nfcid3, did, bs, br, pp, gb)
@@ -725,6 +727,8 @@ class ATR_RES(ATR_REQ_RES):
     @staticmethod
     def decode(data):
         if data.startswith(ATR_RES.PDU_CODE):
+            if len(data) < 17:
+                raise nfc.clf.ProtocolError("invalid format of the ATR-RES")
             nfcid3, (did, bs, br, to, pp) = data[2:12], data[12:17]
             gb = data[17:] if pp & 0x02 else bytearray()
             return ATR_RES(nfcid3, did, bs, br, to, pp, gb)
